@@ -320,7 +320,11 @@ func (f *Flow) callOrigin(c ssa.CallInstruction, idx int, v ssa.Value, seen map[
 		}
 		return
 	}
-	if callee := staticCallee(c); callee != nil && callee.Blocks != nil && ((f.ThroughCalls != nil && f.ThroughCalls[qualFn(callee)]) || (f.ThroughInPkg && f.P.byName[fnKey(callee)] == callee)) {
+	inPkgGeneric := func(fn *ssa.Function) bool { // an instantiation of a generic function of this package
+		o := fn.Origin()
+		return o != nil && o.Pkg == f.P.Pkg
+	}
+	if callee := staticCallee(c); callee != nil && callee.Blocks != nil && ((f.ThroughCalls != nil && f.ThroughCalls[qualFn(callee)]) || (f.ThroughInPkg && (f.P.byName[fnKey(callee)] == callee || inPkgGeneric(callee)))) {
 		for _, b := range callee.Blocks {
 			for _, in := range b.Instrs {
 				if r, ok := in.(*ssa.Return); ok && idx < len(r.Results) {
